@@ -21,6 +21,29 @@ abbrev Kids := List (Key × Trie)
 def dollar : Key := .s ['$']
 
 
+/-! ### User keys vs. the end marker (fix C10-F19)
+
+The code stores the user key `'$'` as a private object (`_EscapedEndMarker`) so that it cannot be
+taken for the end marker `'$'`. The trie layout is not observable; the model represents that
+object by an injective renaming of keys that avoids `'$'`: a string of n ≥ 1 dollar signs is stored
+as n + 1 dollar signs, every other key as itself (`escKey` is a bijection from all keys onto the
+keys other than `'$'`). Every public operation escapes the keys of its path argument; iteration
+un-escapes. -/
+
+def allDollars (s : List Char) : Bool := !s.isEmpty && s.all (fun c => c = '$')
+
+def escKey : Key → Key
+  | .s s => if allDollars s then .s ('$' :: s) else .s s
+  | .i z => .i z
+
+def unescKey : Key → Key
+  | .s [] => .s []
+  | .s (c :: s) => if c = '$' ∧ allDollars s then .s s else .s (c :: s)
+  | .i z => .i z
+
+def escP (p : Path) : Path := p.map escKey
+def unescP (p : Path) : Path := p.map unescKey
+
 namespace Trie
 
 def empty : Trie := .node []
